@@ -14,6 +14,9 @@ CONSTANTS
  DevNoAclOn <- NoApis
  DevGateAfterAppend = "none"
  DevLeaseCheckSkipped = FALSE
+ DevFetchAclOnRequestName = FALSE
+ DevStaleOwnedOnSessionReplace = FALSE
+ DevLeaseErrMisindexed = FALSE
 INIT TInit
 NEXT TNext
 POSTCONDITION Reached
